@@ -82,11 +82,11 @@ theorem exclusive_writer (a b : Nat) (ta tb : Thread)
     (hha : holds ta.pc = true) (hhb : holds tb.pc = true) : ta.idx ≠ tb.idx :=
   (run_good crc pl blob hpl sched hsep).excl a b ta tb ha hb hab hha hhb
 
-/-- **C03 (5)** Whatever happens next (any action except deleting the torrent: a write of any payload
+/-- **C03 (5)** Whatever happens next (any action except deleting the torrent or a crash that tears the `_status` sidecar: a write of any payload
     to any index by any thread, a chunk of a concurrent write, a reopen), a complete piece stays complete and its bytes
     do not change — in particular a corrupt or duplicate payload for a complete piece never
     reaches the file. -/
-theorem complete_piece_stable (a : Action) (ha : SepAction crc pl blob a) (hnr : a ≠ .recreate) (i : Nat)
+theorem complete_piece_stable (a : Action) (ha : SepAction crc pl blob a) (hnr : a.destructive = false) (i : Nat)
     (hc : (run crc (MetaInfo.ofBlob crc pl blob) sched).pieces[i]? = some .complete) :
     (step crc (run crc (MetaInfo.ofBlob crc pl blob) sched) a).pieces[i]? = some .complete ∧
     ((step crc (run crc (MetaInfo.ofBlob crc pl blob) sched) a).file.drop (pl * i)).take pl =
